@@ -12,6 +12,13 @@
 #      replaced pages (`deleted`) and the tracker's `extra_freed` into `freed_pages`.
 #  U3  reuse before growth.  In `SyncAllocator::allocate` a page number computed from the bump is produced only behind a
 #      comparison of the allocation index with the clean free list's length.
+#  U4  overflow pages of a replaced or deleted value are released.  (a) in `LeafUpdater::keep_up_to`, once the lookup of the
+#      changed key in the base leaf (`BaseLeaf::find_key`) has produced a result, every path to the return examines its
+#      `found` flag; with the flag set every path examines the replaced cell (`BaseLeaf::cell`) for overflow, and with overflow
+#      set every path invokes the deleted-overflow callback with that cell - an early return in between leaks the pages
+#      (defect F12); (b) `LeafUpdater::ingest` hands its own callback to keep_up_to; (c) the callback the leaf stage passes to
+#      `ingest` stores the cell in the vector that becomes `LeafWorkerOutput.overflow_deleted`; (d) that field is drained into
+#      `overflow::delete` together with the stage's `freed_pages`; (e) `overflow::delete` extends its `freed` parameter.
 from core import trace, xtrace, fields_of, CheckBroken
 
 PREPARE = "nomt::bitbox::DB::prepare_sync"
@@ -27,6 +34,13 @@ START_SYNC = "nomt::beatree::allocator::Store::start_sync"
 FL_COMMIT = "nomt::beatree::allocator::free_list::FreeList::commit"
 PUSH_ENCODE = "nomt::beatree::allocator::free_list::FreeList::push_and_encode"
 ALLOCATE = "nomt::beatree::allocator::SyncAllocator::allocate"
+KEEP = "nomt::beatree::ops::update::leaf_updater::LeafUpdater::keep_up_to"
+INGEST = "nomt::beatree::ops::update::leaf_updater::LeafUpdater::ingest"
+FIND_KEY = "nomt::beatree::ops::update::leaf_updater::BaseLeaf::find_key"
+BASE_LEAF = "nomt::beatree::ops::update::leaf_updater::BaseLeaf::"
+LEAF_NODE = "nomt::beatree::leaf::node::LeafNode::"
+OVF_DELETE = "nomt::beatree::ops::overflow::delete"
+WORKER_OUT = "nomt::beatree::ops::update::leaf_stage::LeafWorkerOutput"
 
 
 def short(fn):
@@ -284,5 +298,180 @@ def u3(facts, rep):
     return n
 
 
+def _cb_params(body):
+    return [i for i in range(1, body.argc + 1) if "FnMut(&[u8])" in body.local_ty(i) or "Fn(&[u8])" in body.local_ty(i)]
+
+
+def _invocations(body, params):
+    out = []
+    for b, t in body.calls():
+        c = t.get("callee") or t.get("orig") or ""
+        if c.startswith("core::ops::function::Fn") and t["args"] and any(r.kind == "param" and r.what in params for r in trace(body, t["args"][0])):
+            out.append((b, t))
+    return out
+
+
+def _derives(body, op, pred, depth=0):
+    """termination.derives_from, also looking through the operands of aggregates (the argument tuple of a closure call)"""
+    import termination
+
+    if termination.derives_from(body, op, pred):
+        return True
+    if depth < 3:
+        for r in trace(body, op):
+            if r.kind == "agg" and r.obj is not None and any(_derives(body, o, pred, depth + 1) for o in r.obj.get("ops", [])):
+                return True
+    return False
+
+
+def _must_pass(body, starts, gates):
+    """every path from `starts` to a return passes a block of `gates`; returns the offending return block or None"""
+    reach = body.reachable([x for x in starts if x not in gates], set(gates))
+    for r in body.return_blocks():
+        if r in reach:
+            return r
+    return None
+
+
+def _true_targets(t):
+    """successors of a bool switch taken when the operand is not 0"""
+    out = [x for (v, x) in t["vals"] if str(v) != "0"]
+    if t.get("else") is not None:
+        out.append(t["else"])
+    return out
+
+
+def u4(facts, rep):
+    import termination
+
+    n = 0
+    k = facts.body(KEEP)
+    ks = short(KEEP)
+    params = _cb_params(k)
+    inv = _invocations(k, set(params))
+    n += 1
+    if not rep.check(bool(params) and bool(inv), "U4", ks, "reports-deleted-overflow", "LeafUpdater::keep_up_to no longer invokes its deleted-overflow callback: the overflow pages of replaced or deleted values are never released", site=k.span, detail="with_deleted_overflow(val) at %s" % [t.get("ln") for (_b, t) in inv]):
+        return n
+    invb = {b for (b, _t) in inv}
+    lookups = [b for b, t in k.calls() if t.get("callee") == FIND_KEY]
+    n += 1
+    if not rep.check(bool(lookups), "U4", ks, "looks-up-key", "LeafUpdater::keep_up_to no longer looks the changed key up in the base leaf (BaseLeaf::find_key)", site=k.span, detail="base.find_key(up_to)"):
+        return n
+
+    def from_lookup(r, payload):
+        if r.kind != "call" or r.what != FIND_KEY:
+            return False
+        is_discr = bool(r.path) and r.path[-1][0] == "<discr>"
+        return (not is_discr) if payload else is_discr
+
+    found_sw, some_starts = [], []
+    for b in range(k.n):
+        t = k.term(b)
+        if t["k"] != "switch":
+            continue
+        rs = trace(k, t["d"])
+        if any(from_lookup(r, True) for r in rs):
+            found_sw.append(b)
+        elif any(from_lookup(r, False) for r in rs):
+            # the arm(s) in which the lookup produced a result
+            some_starts += [x for (v, x) in t["vals"] if str(v) != "0"]
+    if not some_starts:
+        some_starts = [x for lb in lookups for x in k.succ(lb)]
+    n += 1
+    if rep.check(bool(found_sw), "U4", ks, "tests-found", "LeafUpdater::keep_up_to never tests whether the changed key was found in the base leaf: a replaced cell's overflow pages cannot be released", site=k.span, detail="`if found` at bb%s" % found_sw):
+        bad = _must_pass(k, some_starts, set(found_sw) | invb)
+        n += 1
+        rep.check(bad is None, "U4", ks, "found-examined-on-every-path", "after BaseLeaf::find_key has located the changed key, keep_up_to can return (bb%s) without examining whether the key was found: when nothing is kept in front of it, the replaced cell's overflow pages are never reported and leak" % bad, site=k.term(lookups[0]).get("ln"), detail="every path from the lookup's result to the return passes the `found` test at bb%s" % found_sw)
+    # found => the cell is examined for overflow
+    ovf_sw = []
+    for b in range(k.n):
+        t = k.term(b)
+        if t["k"] != "switch" or b in found_sw:
+            continue
+        if termination.derives_from(k, t["d"], lambda r: r.kind == "call" and (str(r.what).startswith(BASE_LEAF) or str(r.what).startswith(LEAF_NODE)) and r.what != FIND_KEY and any(k.dominates(f, r.bb) for f in found_sw)):
+            ovf_sw.append(b)
+    n += 1
+    if rep.check(bool(ovf_sw), "U4", ks, "tests-overflow", "keep_up_to does not examine the found cell for overflow", site=k.span, detail="`if overflow` at bb%s" % ovf_sw):
+        for f in found_sw:
+            bad = _must_pass(k, _true_targets(k.term(f)), set(ovf_sw) | invb)
+            n += 1
+            rep.check(bad is None, "U4", ks, "found-cell-examined", "with the changed key found, keep_up_to can return (bb%s) without examining the replaced cell for overflow" % bad, site=k.term(f).get("ln"), detail="found => overflow test at bb%s" % ovf_sw)
+        for o in ovf_sw:
+            bad = _must_pass(k, _true_targets(k.term(o)), invb)
+            n += 1
+            rep.check(bad is None, "U4", ks, "overflow-reported", "keep_up_to can return (bb%s) with an overflow cell found and replaced without invoking the deleted-overflow callback" % bad, site=k.term(o).get("ln"), detail="overflow => callback at bb%s" % sorted(invb))
+    n += 1
+    with_cell = [t.get("ln") for (b, t) in inv if any(_derives(k, a, lambda r: r.kind == "call" and (str(r.what).startswith(BASE_LEAF) or str(r.what).startswith(LEAF_NODE))) for a in t["args"][1:])]
+    rep.check(bool(with_cell), "U4", ks, "callback(cell)", "no invocation of the deleted-overflow callback in keep_up_to is given a cell read from the base leaf", site=inv[0][1].get("ln"), detail="with_deleted_overflow(base.cell(to).0) at %s" % with_cell)
+    # (b) ingest passes its callback on
+    ing = facts.body(INGEST)
+    ip = set(_cb_params(ing))
+    kc = [(b, t) for b, t in ing.calls() if t.get("callee") == KEEP]
+    n += 1
+    ok = bool(ip) and bool(kc) and all(any(r.kind == "param" and r.what in ip for a in t["args"] for r in trace(ing, a)) for (_b, t) in kc)
+    rep.check(ok, "U4", short(INGEST), "passes-callback", "LeafUpdater::ingest does not hand its deleted-overflow callback to keep_up_to: replaced overflow cells are dropped", site=ing.span, detail="self.keep_up_to(Some(&key), with_deleted_overflow)")
+    if kc:
+        bad = _must_pass(ing, [0], {b for (b, _t) in kc})
+        n += 1
+        rep.check(bad is None, "U4", short(INGEST), "always-keeps-up-to", "LeafUpdater::ingest can return (bb%s) without calling keep_up_to for the changed key" % bad, site=ing.span, detail="every path calls keep_up_to")
+    # (c) the stage's callback stores the cell in what becomes LeafWorkerOutput.overflow_deleted
+    sites = [(cid, cb) for (cid, cb, kk) in facts.callers().get(INGEST, []) if kk == "call" and "::tests::" not in cid and "::test" not in cid.split("::")[-1] and "::benches" not in cid]
+    n += 1
+    rep.check(len(sites) >= 1, "U4", short(INGEST), "stage-call-site", "LeafUpdater::ingest is no longer called by the leaf stage", detail="%d call site(s)" % len(sites))
+    for (cid, cb) in sites:
+        body = facts.bodies[cid]
+        t = body.term(cb)
+        clos = [r for a in t["args"][1:] for r in trace(body, a) if r.kind == "agg" and r.obj is not None and r.obj.get("ak") == "closure"]
+        n += 1
+        if not rep.check(bool(clos), "U4", short(cid), "callback-closure", "the deleted-overflow callback given to LeafUpdater::ingest at %s is not a closure of the stage" % t.get("ln"), site=t.get("ln"), detail="|cell| overflow_deleted.push(cell.to_vec())"):
+            continue
+        stored = False
+        for r in clos:
+            cbody = facts.bodies.get(r.obj.get("name"))
+            if cbody is None:
+                continue
+            caps = r.obj.get("fields", [])
+            for b2, t2 in cbody.calls():
+                m = (t2.get("callee") or "").rsplit("::", 1)[-1]
+                if m not in ("push", "extend", "extend_from_slice", "push_back", "insert") or len(t2["args"]) < 2:
+                    continue
+                into = [x for x in trace(cbody, t2["args"][0]) if x.kind == "upvar"]
+                val = any(termination.derives_from(cbody, a, lambda x: x.kind == "param" and x.what == 2) for a in t2["args"][1:])
+                if not into or not val:
+                    continue
+                for x in into:
+                    cap = x.what
+                    if cap not in caps:
+                        continue
+                    # the captured vector ends up in LeafWorkerOutput.overflow_deleted
+                    src = {(y.kind, y.what, y.bb) for y in trace(body, r.obj["ops"][caps.index(cap)])}
+                    for b3 in range(body.n):
+                        for s3 in body.stmts(b3):
+                            if s3["k"] == "assign" and s3["rv"]["k"] == "agg" and s3["rv"].get("name", "").startswith(WORKER_OUT) and "overflow_deleted" in s3["rv"].get("fields", []):
+                                o3 = s3["rv"]["ops"][s3["rv"]["fields"].index("overflow_deleted")]
+                                if src & {(y.kind, y.what, y.bb) for y in trace(body, o3)}:
+                                    stored = True
+        n += 1
+        rep.check(stored, "U4", short(cid), "callback-stores-cell", "the deleted-overflow callback given to LeafUpdater::ingest at %s does not store the cell in the vector returned as LeafWorkerOutput.overflow_deleted" % t.get("ln"), site=t.get("ln"), detail="closure pushes its argument into the captured vector that becomes LeafWorkerOutput.overflow_deleted")
+    # (d) overflow_deleted -> overflow::delete(.., &mut freed_pages)
+    dsites = [(cid, cb) for (cid, cb, kk) in facts.callers().get(OVF_DELETE, []) if kk == "call" and "::tests::" not in cid]
+    good = 0
+    for (cid, cb) in dsites:
+        body = facts.bodies[cid]
+        t = body.term(cb)
+        a_cell = bool(t["args"]) and termination.derives_from(body, t["args"][0], lambda r: "overflow_deleted" in r.fields)
+        a_freed = any("freed_pages" in r.fields for a in t["args"][1:] for r in trace(body, a))
+        if a_cell and a_freed:
+            good += 1
+    n += 1
+    rep.check(good >= 1, "U4", short(OVF_DELETE), "drains-overflow_deleted", "no call of overflow::delete is given the cells of LeafWorkerOutput.overflow_deleted together with the stage's freed_pages: the pages of deleted overflow values never reach the free list", detail="%d of %d call site(s)" % (good, len(dsites)))
+    # (e) overflow::delete extends `freed`
+    od = facts.body(OVF_DELETE)
+    ext = [b for b, t in od.calls() if (t.get("callee") or "").rsplit("::", 1)[-1] in ("extend", "push", "extend_from_slice") and t["args"] and any(r.kind == "param" and r.what == 3 for r in trace(od, t["args"][0]))]
+    n += 1
+    rep.check(len(ext) >= 2, "U4", short(OVF_DELETE), "extends-freed", "overflow::delete no longer adds both the cell's page numbers and the page numbers stored in the overflow pages to `freed`", site=od.span, detail="freed.extend(..) at bb%s" % ext)
+    return n
+
+
 def run(facts, rep):
-    return u1(facts, rep), u2(facts, rep), u3(facts, rep)
+    return u1(facts, rep), u2(facts, rep), u3(facts, rep), u4(facts, rep)
